@@ -259,6 +259,16 @@ def run(ctx):
     rm.interception_flag_clause(ctx, res, 'C01', 'C01.i')
     rm.ordinals_only_when_intercepted_clause(ctx, res, 'C01', 'C01.j')
     rm.key_helpers_stateless_clause(ctx, res, 'C01', 'C01.k')
+    # ---- C01.l / C01.m each call is looked up under its own key: capture selection and candidate order (shared with C06.d / C06.e)
+    from . import c06 as _c06, c02 as _c02
+    cl_ = res.clause('C01.l', 'R-DECISION', 'every captured argument reaches the key (capture selection table)', floor=4)
+    _c06.capture_selection(ctx, res, cl_, roles.key_builders['input'], prop='C01', cid='C01.l')
+    cm_ = res.clause('C01.m', 'R-AGREE', 'the reader tries the candidate keys in their own order (main key first)', floor=1)
+    oks_, whys_ = _c02.reader_scan(roles.reader)
+    cm_.instance('candidate keys looked up in the key builder\'s order', roles.reader.qualname, oks_, detail=whys_)
+    if not oks_:
+        res.add(Finding('C01', 'C01.m', 'R-AGREE', roles.reader.file, roles.reader.qualname, roles.reader.node.lineno, 'reader key scan',
+                        whys_ + ': a call whose own key is recorded is answered with the value recorded under a fallback alias'))
     # ---------------- C01.f
     cf = res.clause('C01.f', 'R-PROV', 'play(): fetched recording installed as playback recording, extracted from, returned', floor=3)
     ok, why = play_uses_fetched(roles)
